@@ -63,16 +63,24 @@ class Zygote:
         self.a = os.fdopen(ar, "r")
         self.memo = {}
 
-    def ask(self, query):
+    def submit(self, query):
+        """Start the pristine evaluation of `query` (runs concurrently with the caller); fetch with result()."""
         key = json.dumps(query, sort_keys=True)
-        if key in self.memo:
-            return self.memo[key]
-        self.q.write(key + "\n")
-        self.q.flush()
-        line = self.a.readline()
-        res = json.loads(line) if line else {"err": "zygote died"}
-        self.memo[key] = res
-        return res
+        self._pending = key
+        if key not in self.memo:
+            self.q.write(key + "\n")
+            self.q.flush()
+
+    def result(self):
+        key = self._pending
+        if key not in self.memo:
+            line = self.a.readline()
+            self.memo[key] = json.loads(line) if line else {"err": "zygote died"}
+        return self.memo[key]
+
+    def ask(self, query):
+        self.submit(query)
+        return self.result()
 
     def close(self):
         try:
